@@ -57,11 +57,12 @@ prop("C04", [
 prop("C05", [
     S(PARSE, "^TestC05Regress$", kind="plain"),
     S(PARSE, "^TestC05RepoLogs$", kind="plain"),
+    S(PARSE, "^TestC05HeaderSoup$", kind="plain"),
     S(PARSE, "^TestC05$", q=60000, t=1000000, shards=16, timeout_t=3000),
     S(PARSE, "", kind="fuzz", fuzz="FuzzParse", fuzztime_t=120),
     S(PARSE, "", kind="fuzz", fuzz="FuzzParseLogLine", fuzztime_t=120),
 ], ["absence of panics/hangs is sampled, not proved", "hang watchdog: 30 s per case for work that takes microseconds"],
-   nontrivial_classes=["header-accepted", "enrich-type-1300", "enrich-type-1306", "enrich-type-1309", "enrich-type-1400", "enrich-type-1327"])
+   nontrivial_classes=["header-accepted", "header-soup-sweep", "enrich-type-1300", "enrich-type-1306", "enrich-type-1309", "enrich-type-1400", "enrich-type-1327"])
 
 prop("C12", [
     S(PARSE, "^TestC12Regress$", kind="plain"),
